@@ -10,7 +10,7 @@ from typing import Any, Dict, List, Optional
 from ..common import CaseTimeout
 from .model import CallRec, Injected, PoolM, ReqM, TaskM
 from .oracles import Oracles
-from .world import Inconclusive, Sentinel, World, quiet_logging
+from .world import Inconclusive, Sentinel, World, debug_logging, quiet_logging
 
 ASYNC_OPS = {"flush", "close", "until_closed"}
 NAME_RE = {
@@ -128,6 +128,10 @@ class Run(Oracles):
         loop = asyncio.new_event_loop()
         w.loop = loop
         loop.set_exception_handler(lambda loop, ctx: None)
+        debug = self.program.get("log") == "debug"
+        if debug:
+            debug_logging()
+            w.label("config:logger-at-DEBUG")
         try:
             asyncio.set_event_loop(loop)
             loop.run_until_complete(self.driver())
@@ -149,6 +153,8 @@ class Run(Oracles):
             finally:
                 asyncio.set_event_loop(None)
                 loop.close()
+                if debug:
+                    quiet_logging()
         res.history = self.history()
         res.requests = [(pm.idx, rm.rid, rm.kind, bool(rm.accepted), rm.group if rm.accepted else None, len(rm.tids), len(rm.calls), rm.pulled)
                         for pm in w.pools for rm in pm.reqs]
